@@ -15,7 +15,9 @@ var words = []string{"crash", "on", "startup", "login", "button", "does", "not",
 	"merging", "labels", "timeout", "regression", "docs", "typo", "api", "null", "pointer", "slow", "query", "cache"}
 
 var uni = []string{"héllo", "naïve", "日本語", "テスト", "العربية", "עברית", "é", "ǻ", "🙂", "👩‍💻", "Ω≈ç√", "ß", "İi", "ǅ",
-	"​", " ", "‮", "Ａ", "한글", "ไทย"}
+	"​", " ", "‮", "Ａ", "한글", "ไทย",
+	// characters encoders treat specially: markup, quotes, back-slashes, the unicode line separators
+	"R&D", "<b>bold</b>", "a<b&&c>d", "\"quoted\"", "back\\slash", "sep\u2028arator", "</script>", "'apostrophe'"}
 
 func word(r *sim.Rand) string {
 	if r.Chance(0.25) {
@@ -100,7 +102,7 @@ func genFiles(r *sim.Rand) []string {
 	return out
 }
 
-var labelPool = []string{"bug", "feature", "ui", "prio:high", "needs triage", "wontfix", "étiquette", "バグ", "a", "b"}
+var labelPool = []string{"bug", "feature", "ui", "prio:high", "needs triage", "wontfix", "étiquette", "バグ", "a", "b", "c&d", "<tag>"}
 
 func genLabels(r *sim.Rand, n int) []string {
 	var out []string
@@ -172,7 +174,7 @@ func (e *Engine) Generate(prop, tier string, seed uint64, run int) *sim.Plan {
 	case "C12":
 		w = weights{newbug: 16, edit: 30, commit: 4, push: 10, pull: 14, restart: 2, cachesize: 2, identmut: 3, clockjump: 4}
 	case "C09":
-		w = weights{newbug: 3, edit: 6, push: 16, pull: 20, fetch: 2, merge: 2, identmut: 24, restart: 2}
+		w = weights{newbug: 3, edit: 6, push: 16, pull: 20, fetch: 2, merge: 2, identmut: 24, restart: 2, delclocks: 2}
 	case "C04":
 		w.restart = 4
 		w.edit = 40
